@@ -26,6 +26,14 @@ class SymArray(np.ndarray):
     def __setitem__(self, k, v):
         np.ndarray.__setitem__(self, k, _lift_value(v))
 
+    def astype(self, dtype, *a, **k):
+        try:
+            if np.dtype(dtype).kind == "f":
+                return self.copy()  # "float64" view of symbolic reals: stay symbolic
+        except TypeError:
+            pass
+        return np.ndarray.astype(self, dtype, *a, **k)
+
 
 def _lift_value(v):
     if isinstance(v, (SR, SB, SI)) or v is None:
